@@ -1266,6 +1266,24 @@ loop:
 	return out
 }
 
+// the kill table of the client, read from the code on every run: tikvrpc.Request.IsInterruptible for every command
+// type the client names (CmdType.String() != "Unknown"); the check compares it with the table of the model (Locks/Kill.v)
+func killTable() map[string]interface{} {
+	off, n := []string{}, 0
+	for t := 0; t < 1<<16; t++ {
+		name := tikvrpc.CmdType(t).String()
+		if name == "Unknown" {
+			continue
+		}
+		n++
+		if !(&tikvrpc.Request{Type: tikvrpc.CmdType(t)}).IsInterruptible() {
+			off = append(off, name)
+		}
+	}
+	sort.Strings(off)
+	return map[string]interface{}{"not_interruptible": off, "types": n}
+}
+
 func main() {
 	util.EnableFailpoints()
 	_ = failpoint.Enable("tikvclient/fastBackoffBySkipSleep", "return")
@@ -1286,6 +1304,7 @@ func main() {
 	enc := json.NewEncoder(w)
 	n := 0
 	oldDirs := []string{}
+	ktab := killTable()
 	for in.Scan() {
 		line := strings.TrimSpace(in.Text())
 		if line == "" {
@@ -1315,6 +1334,9 @@ func main() {
 			}()
 			return runScenario(&sc)
 		}()
+		if res != nil {
+			res["kill_table"] = ktab
+		}
 		_ = enc.Encode(res)
 		w.Flush()
 		n++
